@@ -485,3 +485,18 @@ Qed.
 
 Lemma vm_iter_pushes_example : vm_iter_pushes <> [] /\ Forall (fun p => 2 <= p) vm_iter_pushes.
 Proof. split; [discriminate|]. unfold vm_iter_pushes. repeat constructor; discriminate. Qed.
+
+
+(* seconds -> nanoseconds in yr_scanner_set_timeout: no wrap-around for any timeout the `int` parameter can carry *)
+Lemma timeout_ns_exact_proof : forall t, 0 <= t <= timeout_param_max -> timeout_ns t = t * timeout_ns_per_second.
+Proof.
+  intros t Ht. unfold timeout_param_max in Ht. unfold timeout_ns, timeout_ns_per_second, c_wrap_u, c_wrap_s.
+  repeat match goal with
+         | |- context [?a mod ?m] => rewrite (Z.mod_small a m) by lia
+         | |- context [?a + ?h - ?h] => replace (a + h - h) with a by lia
+         end.
+  lia.
+Qed.
+
+Lemma timeout_ns_example : timeout_ns 3 = 3000000000 /\ timeout_ns 60 = 60000000000 /\ timeout_ns 2147483647 = 2147483647000000000.
+Proof. repeat split; vm_compute; reflexivity. Qed.
